@@ -45,6 +45,67 @@ def _branch(fn, node, test_text):
     return None
 
 
+def forward_bound_accumulator(ctx: Ctx, rid: str):
+    """TaskScenario.schedule, forward branch: the dependency bound is a max-accumulator over all edges (C04 R04.2 / C07 R07.4)."""
+    from .common import facts_of, lit_compare
+    sched = ctx.repo.func("TaskScenario.schedule")
+    fd = ctx.dep.of(sched)
+    g = cfg_of(sched)
+    ff = facts_of(sched)
+    seen_dep_update = False
+    for asg in [n for n in own_nodes(sched) if isinstance(n, ast.Assign) and norm(n.targets[0]) == "earliest_start"
+                and _branch(sched, n, "forward") == "T"]:
+        if not any(isinstance(x, ast.Name) and x.id != "self" for x in ast.walk(asg.value)):
+            continue                                  # initialisation from project data
+        new = norm(asg.value)
+        node = g.node_of(asg)
+        fact = None
+        tabs = []
+        for cl in (ff.at(node) if node is not None else ()):
+            if len(cl) != 1:
+                continue
+            (t, p), = tuple(cl)
+            e = lit_compare(t)
+            if not isinstance(e, ast.Compare):
+                continue
+            tab = order_table(e if p else ast.UnaryOp(op=ast.Not(), operand=e), lambda x: norm(x) == new, lambda x: norm(x) == "earliest_start")
+            if tab.get("<") is False and tab.get(">") is True:
+                fact = t
+            elif tab.get("<") is not None or tab.get(">") is not None:
+                tabs.append((t, tab))
+        ok = fact is not None
+        ctx.ob(rid, f"{sched.qual}: forward accumulator earliest_start = {new}", (sched, asg), ok,
+               f"bound only moves later: written under the fact {fact}" if ok else
+               f"the forward bound is overwritten with {new} without the fact `{new} > earliest_start` for the value that is written "
+               f"(facts there: {[t for t, _ in tabs][:3]}): a predecessor (with its gap) that ends earlier than the bound found so far can "
+               "lower it, or the test was made before the gap was added",
+               key=key_of(rid, sched, None, "fwd acc " + new))
+        if new == "dep_time":
+            seen_dep_update = True
+            d = full(fd.deps_of(asg.value, control=True))
+            for a, what in (("pattr:end", "predecessor end"), ("pattr:start", "predecessor start (on-start edges)"),
+                            ("pattr:gapduration", "gapduration"), ("pattr:gaplength", "gaplength"), ("pattr:onstart", "edge kind"),
+                            ("call:getAllDependencies", "own + inherited edges")):
+                ok = a in d
+                ctx.ob(rid, f"{sched.qual}: forward bound depends on {what}", (sched, asg), ok,
+                       f"dep_time depends on {a}" if ok else f"the forward dependency bound ignores the {what}",
+                       key=f"{rid}|TaskScenario.schedule|fwd {a}")
+    if not seen_dep_update:
+        raise AnchorMissing("forward dependency accumulator (earliest_start = dep_time) not found in TaskScenario.schedule")
+    # the gap is added on every path between reading the predecessor's date and the accumulator test: the guard of the
+    # gap computation may depend on the predecessor date being set, not on how it compares with the bound so far
+    for n in own_nodes(sched):
+        if isinstance(n, ast.Assign) and norm(n.targets[0]) == "dep_time" and _branch(sched, n, "forward") == "T" \
+                and isinstance(n.value, ast.BinOp) and "timedelta" in norm(n.value):
+            from .common import enclosing_ifs
+            bad = [norm(i.test) for (i, b) in enclosing_ifs(n, sched.node) if "earliest_start" in norm(i.test)]
+            ctx.ob(rid, f"{sched.qual}: gap added independently of the bound so far", (sched, n), not bad,
+                   "the gap is added to every predecessor date" if not bad else
+                   f"the gap is added only under {bad}: a predecessor that ends before the bound found so far, but whose end + gap "
+                   "lies after it, no longer moves the bound",
+                   key=key_of(rid, sched, None, "fwd gap unconditional"))
+
+
 def run(ctx: Ctx):
     repo = ctx.repo
     sched = repo.func("TaskScenario.schedule")
@@ -106,30 +167,9 @@ def run(ctx: Ctx):
     def in_forward(n):
         return _branch(sched, n, "forward")
 
-    # the accumulator update `if dep_time > earliest_start: earliest_start = dep_time`
-    fwd_updates = [n for n in own_nodes(sched) if isinstance(n, ast.If) and in_forward(n) == "T" and isinstance(n.test, ast.Compare)
-                   and any(isinstance(s, ast.Assign) and norm(s.targets[0]) == "earliest_start" for s in n.body)]
-    seen_dep_update = False
-    for n in fwd_updates:
-        asg = next(s for s in n.body if isinstance(s, ast.Assign) and norm(s.targets[0]) == "earliest_start")
-        new = norm(asg.value)
-        tab = order_table(n.test, lambda e: norm(e) == new, lambda e: norm(e) == "earliest_start")
-        ok = tab["<"] is False and tab[">"] is True
-        ctx.ob("R04.2", f"{sched.qual}: forward accumulator {norm(n.test)}", (sched, n), ok,
-               "bound only moves later (max-accumulator)" if ok else f"forward bound is not a max-accumulator ({tab})",
-               key=key_of("R04.2", sched, None, "fwd acc " + new))
-        if new == "dep_time":
-            seen_dep_update = True
-            d = full(fd.deps_of(asg.value, control=True))
-            for a, what in (("pattr:end", "predecessor end"), ("pattr:start", "predecessor start (on-start edges)"),
-                            ("pattr:gapduration", "gapduration"), ("pattr:gaplength", "gaplength"), ("pattr:onstart", "edge kind"),
-                            ("call:getAllDependencies", "own + inherited edges")):
-                ok = a in d
-                ctx.ob("R04.2", f"{sched.qual}: forward bound depends on {what}", (sched, asg), ok,
-                       f"dep_time depends on {a}" if ok else f"the forward dependency bound ignores the {what}",
-                       key=f"R04.2|TaskScenario.schedule|fwd {a}")
-    if not seen_dep_update:
-        raise AnchorMissing("forward dependency accumulator not found in TaskScenario.schedule")
+    # the accumulator: every write `earliest_start = V` (other than the initialisation from project data) happens under the
+    # must-fact V > earliest_start for the value V that is written (a reassignment of V after the test kills the fact)
+    forward_bound_accumulator(ctx, "R04.2")
     # gap applied with + (monotone increasing in the gap), end chosen unless onstart
     for n in own_nodes(sched):
         if isinstance(n, ast.Assign) and norm(n.targets[0]) == "dep_time" and in_forward(n) == "T":
